@@ -332,7 +332,7 @@ func RecvNamed(f *ssa.Function) *types.Named {
 	if f == nil || f.Signature.Recv() == nil {
 		return nil
 	}
-	n, _ := deref(f.Signature.Recv().Type()).(*types.Named)
+	n, _ := types.Unalias(deref(f.Signature.Recv().Type())).(*types.Named)
 	return n
 }
 
